@@ -710,6 +710,267 @@ Proof.
   field.
 Qed.
 
+(* ---- the bound on the model's own s-s block ---- *)
+Lemma combine_map_map3 {A B C D} (f : A -> C) (g : A -> D) (l : list A) (l2 : list B) :
+  combine (map f l) (combine (map g l) l2)
+  = map (fun xc : A * B => (f (fst xc), (g (fst xc), snd xc))) (combine l l2).
+Proof. revert l2; induction l as [|a l IH]; intros [|b l2]; cbn; [reflexivity..|]. now rewrite IH. Qed.
+
+Definition ss_shell (x y z : R) (es : list R) (cs : list (list R)) (sph : bool) (lb : list label) : shell R :=
+  mkShell R 0 x y z es cs sph [] lb.
+
+Lemma ss_entry xa ya za ea ca sa_ la_ xb yb zb eb cb sb_ lb_ m1 m2 :
+  let sa := ss_shell xa ya za ea ca sa_ la_ in let sb := ss_shell xb yb zb eb cb sb_ lb_ in
+  (m1 < nseg sa)%nat -> (m2 < nseg sb)%nat ->
+  nth4 RK m1 0 m2 0 (overlap_block RK sa sb)
+  = rsum (map (fun bc : R * list R =>
+        rsum (map (fun ac : R * list R =>
+               base RK xa xb (fst ac) (fst bc) * base RK ya yb (fst ac) (fst bc) * base RK za zb (fst ac) (fst bc)
+               * norm_prim RK 0 (0,0,0)%nat (fst ac) * nth m1 (snd ac) 0) (combine ea ca))
+        * norm_prim RK 0 (0,0,0)%nat (fst bc) * nth m2 (snd bc) 0) (combine eb cb)).
+Proof.
+  intros sa sb H1 H2. unfold nth4, overlap_block, mm_block. cbn [map hd].
+  rewrite nth_mk by exact H1.
+  change (comps_of sa) with [(0,0,0)%nat]. change (comps_of sb) with [(0,0,0)%nat].
+  change (norms RK sa) with [map (norm_prim RK 0 (0,0,0)%nat) ea].
+  change (norms RK sb) with [map (norm_prim RK 0 (0,0,0)%nat) eb].
+  cbn [combine length map].
+  rewrite (nth_mk 1) by lia. rewrite nth_mk by exact H2. rewrite (nth_mk 1) by lia.
+  cbn [nth].
+  unfold pair_mat, contract_b. rewrite nth_mk by exact H1. rewrite nth_mk by exact H2.
+  unfold contract_a, tabs. rewrite !map_map.
+  change (s_exps sa) with ea. change (s_exps sb) with eb.
+  change (s_coeffs sa) with ca. change (s_coeffs sb) with cb.
+  rewrite combine_map_map3, map_map.
+  change (fsum RK) with rsum.
+  f_equal. apply map_ext; intros [beta crowb]; cbn [fst snd].
+  rewrite nth_mk by exact H1. rewrite map_map, combine_map_map3, map_map.
+  change (fmul RK) with Rmult. change (f0 RK) with 0.
+  f_equal.
+Qed.
+
+Lemma rsum_scal_r {A} (f : A -> R) l k : rsum (map f l) * k = rsum (map (fun x => f x * k) l).
+Proof. induction l as [|x l IH]; cbn [map rsum fold_right]; [ring|]. unfold rsum in *. rewrite <- IH. ring. Qed.
+Lemma rsum_plus {A} (f g : A -> R) l :
+  rsum (map (fun x => f x + g x) l) = rsum (map f l) + rsum (map g l).
+Proof. induction l as [|x l IH]; cbn [map rsum fold_right]; [ring|]. unfold rsum in *. rewrite IH. ring. Qed.
+Lemma rsum_zero {A} (l : list A) : rsum (map (fun _ => 0) l) = 0.
+Proof. induction l as [|x l IH]; cbn [map rsum fold_right]; [reflexivity|]. unfold rsum in *. rewrite IH. ring. Qed.
+Lemma rsum_swap {A B} (f : A -> B -> R) la lb :
+  rsum (map (fun a => rsum (map (fun b => f a b) lb)) la)
+  = rsum (map (fun b => rsum (map (fun a => f a b) la)) lb).
+Proof.
+  induction la as [|a la IH]; cbn [map rsum fold_right].
+  - now rewrite rsum_zero.
+  - rewrite rsum_plus. unfold rsum in *. now rewrite IH.
+Qed.
+Lemma rsum_ext_in {A} (f g : A -> R) l : (forall x, In x l -> f x = g x) -> rsum (map f l) = rsum (map g l).
+Proof. intros H. f_equal. now apply map_ext_in. Qed.
+
+(* column m of a coefficient matrix paired with the exponents: the (coefficient, exponent) list of segment m *)
+Definition col (m : nat) (es : list R) (cs : list (list R)) : list (R * R) :=
+  map (fun ac : R * list R => (nth m (snd ac) 0, fst ac)) (combine es cs).
+
+Lemma map_fst_combine {A B} (la : list A) (lb : list B) :
+  length la = length lb -> map fst (combine la lb) = la.
+Proof.
+  revert lb; induction la as [|a la IH]; intros [|b lb] H; cbn in *; try congruence. f_equal. apply IH. lia.
+Qed.
+Lemma col_exps m es cs : length cs = length es -> map snd (col m es cs) = es.
+Proof. intros H. unfold col. rewrite map_map. cbn [snd]. apply map_fst_combine. now symmetry. Qed.
+
+(* the raw s-s block entry of the model is the double sum over primitive pairs of c_i c_j sprim(a_i, b_j, d2) *)
+Theorem ss_entry_dsum xa ya za ea ca sa_ la_ xb yb zb eb cb sb_ lb_ m1 m2 :
+  let sa := ss_shell xa ya za ea ca sa_ la_ in let sb := ss_shell xb yb zb eb cb sb_ lb_ in
+  (m1 < nseg sa)%nat -> (m2 < nseg sb)%nat ->
+  (forall x, In x ea -> 0 < x) -> (forall x, In x eb -> 0 < x) ->
+  nth4 RK m1 0 m2 0 (overlap_block RK sa sb)
+  = dsum (col m1 ea ca) (col m2 eb cb) (fun a b => sprim a b (dist2 RK sa sb)).
+Proof.
+  intros sa sb H1 H2 Pa Pb. unfold sa, sb. rewrite ss_entry by assumption. fold sa sb.
+  unfold dsum, col. rewrite map_map. cbn [fst snd].
+  transitivity (rsum (map (fun bc : R * list R => rsum (map (fun ac : R * list R =>
+      nth m1 (snd ac) 0 * nth m2 (snd bc) 0 * sprim (fst ac) (fst bc) (dist2 RK sa sb)) (combine ea ca)))
+      (combine eb cb))).
+  - apply rsum_ext_in; intros [beta crowb] Hb; cbn [fst snd].
+    rewrite !rsum_scal_r. apply rsum_ext_in; intros [alpha crowa] Ha; cbn [fst snd].
+    assert (0 < alpha) by (apply Pa; eapply in_combine_l; exact Ha).
+    assert (0 < beta) by (apply Pb; eapply in_combine_l; exact Hb).
+    rewrite dist2_R. cbn [s_x s_y s_z sa sb ss_shell].
+    rewrite <- (sprim_is_model_primitive alpha beta xa ya za xb yb zb) by assumption. ring.
+  - rewrite rsum_swap. apply rsum_ext_in; intros [alpha crowa] Ha; cbn [fst snd].
+    now rewrite map_map.
+Qed.
+
+(* Conservative bound on the model's own block: two s shells whose pair is removed at tolerance tol.
+   na, nb stand for the contraction norms (any non-negative numbers; the assembly multiplies the raw
+   entry by norm_cont_a[m1][0] * norm_cont_b[m2][0], Model/Assembly.v [normalise]). *)
+Theorem removed_s_bound_block xa ya za ea ca sa_ la_ xb yb zb eb cb sb_ lb_ m1 m2 na nb tol :
+  let sa := ss_shell xa ya za ea ca sa_ la_ in let sb := ss_shell xb yb zb eb cb sb_ lb_ in
+  pos_exps sa -> pos_exps sb -> length ca = length ea -> length cb = length eb ->
+  (m1 < nseg sa)%nat -> (m2 < nseg sb)%nat ->
+  0 < tol <= 1 -> 0 <= na -> 0 <= nb ->
+  is_screened RK (Some tol) sa sb = true ->
+  let Sa := abs_sum (col m1 ea ca) in let Sb := abs_sum (col m2 eb cb) in
+  let e := na * nb * nth4 RK m1 0 m2 0 (overlap_block RK sa sb) in
+  Rabs e <= tol * (na * Sa) * (nb * Sb)
+  /\ (0 < na * Sa -> 0 < nb * Sb -> Rabs e < tol * (na * Sa) * (nb * Sb)).
+Proof.
+  intros sa sb Pa Pb La Lb H1 H2 Ht Hna Hnb H. cbv zeta.
+  unfold sa, sb. rewrite ss_entry_dsum; try assumption; try (apply (proj2 Pa)); try (apply (proj2 Pb)).
+  fold sa sb. fold (S_contr na nb (col m1 ea ca) (col m2 eb cb) (dist2 RK sa sb)).
+  apply is_screened_R in H. destruct H as [_ [_ H]]. rewrite cutoff2_R in H.
+  apply removed_s_bound with (ma := min_exp RK sa) (mb := min_exp RK sb); try assumption.
+  - intros x Hx. apply (proj2 Pa). change (s_exps sa) with ea. rewrite <- (col_exps m1 ea ca La). now apply in_map.
+  - intros x Hx. apply (proj2 Pb). change (s_exps sb) with eb. rewrite <- (col_exps m2 eb cb Lb). now apply in_map.
+  - rewrite col_exps by exact La. now apply min_exp_is_min.
+  - rewrite col_exps by exact Lb. now apply min_exp_is_min.
+Qed.
+
+(* ---- the same bound on the entry of the NORMALISED block, with the model's own contraction norms ---- *)
+Lemma combine_mk {A B} n (f : nat -> A) (g : nat -> B) :
+  combine (mk n f) (mk n g) = mk n (fun i => (f i, g i)).
+Proof. unfold mk. induction (seq 0 n) as [|i l IH]; cbn; [reflexivity|]. now rewrite IH. Qed.
+
+Lemma normalise_mk M1 L1 M2 L2 (g1 : nat -> nat -> R) (g2 : nat -> nat -> R) (B : nat -> nat -> nat -> nat -> R) :
+  normalise RK Rmult (mk M1 (fun m => mk L1 (g1 m))) (mk M2 (fun m => mk L2 (g2 m)))
+    (mk M1 (fun m => mk L1 (fun c => mk M2 (fun m' => mk L2 (fun c' => B m c m' c')))))
+  = mk M1 (fun m => mk L1 (fun c => mk M2 (fun m' => mk L2 (fun c' => g1 m c * g2 m' c' * B m c m' c')))).
+Proof.
+  unfold normalise. rewrite combine_mk, map_mk. apply mk_ext; intros m _.
+  rewrite combine_mk, map_mk. apply mk_ext; intros c _.
+  rewrite combine_mk, map_mk. apply mk_ext; intros m' _.
+  rewrite combine_mk, map_mk. apply mk_ext; intros c' _. reflexivity.
+Qed.
+
+Definition ncont (s : shell R) (m : nat) : R := nth 0 (nth m (norm_cont RK s) []) 0.
+
+Lemma ncont_nonneg s m : 0 <= ncont s m.
+Proof.
+  unfold ncont, norm_cont. rewrite nth_mk_or. destruct (Nat.ltb m (nseg s)); [|cbn; lra].
+  rewrite nth_mk_or. destruct (Nat.ltb 0 (length (comps_of s))); [|lra].
+  cbn [fdiv f1 fsqrt RK]. set (x := nth4 RK m 0 m 0 (overlap_block RK s s)).
+  destruct (Req_dec (sqrt x) 0) as [E|E].
+  - rewrite E. unfold Rdiv. rewrite Rinv_0. lra.
+  - pose proof (sqrt_pos x). left. apply Rdiv_lt_0_compat; lra.
+Qed.
+
+(* entry (m1, 0, m2, 0) of the normalised block = norm_a[m1][0] * norm_b[m2][0] * raw entry
+   (base_two_symm.py:160-165 as modelled by [normalise]) *)
+Lemma ss_normalised_entry xa ya za ea ca sa_ la_ xb yb zb eb cb sb_ lb_ m1 m2 :
+  let sa := ss_shell xa ya za ea ca sa_ la_ in let sb := ss_shell xb yb zb eb cb sb_ lb_ in
+  (m1 < nseg sa)%nat -> (m2 < nseg sb)%nat ->
+  nth4 RK m1 0 m2 0 (normalise RK Rmult (norm_cont RK sa) (norm_cont RK sb) (overlap_block RK sa sb))
+  = ncont sa m1 * ncont sb m2 * nth4 RK m1 0 m2 0 (overlap_block RK sa sb).
+Proof.
+  intros sa sb H1 H2. unfold ncont.
+  set (B := fun m c m' c' => nth4 RK m c m' c' (overlap_block RK sa sb)).
+  assert (EB : overlap_block RK sa sb
+     = mk (nseg sa) (fun m => mk 1 (fun c => mk (nseg sb) (fun m' => mk 1 (fun c' => B m c m' c'))))).
+  { unfold B, nth4, overlap_block, mm_block. cbn [map hd].
+    change (comps_of sa) with [(0,0,0)%nat]. change (comps_of sb) with [(0,0,0)%nat].
+    change (norms RK sa) with [map (norm_prim RK 0 (0,0,0)%nat) ea].
+    change (norms RK sb) with [map (norm_prim RK 0 (0,0,0)%nat) eb].
+    cbn [combine length].
+    apply mk_ext; intros m Hm. apply mk_ext; intros c Hc.
+    apply mk_ext; intros m' Hm'. apply mk_ext; intros c' Hc'.
+    rewrite nth_mk by exact Hm. rewrite nth_mk by exact Hc.
+    rewrite nth_mk by exact Hm'. rewrite nth_mk by exact Hc'. reflexivity. }
+  rewrite EB at 1.
+  unfold norm_cont at 1 2. change (length (comps_of sa)) with 1%nat. change (length (comps_of sb)) with 1%nat.
+  rewrite (normalise_mk (nseg sa) 1 (nseg sb) 1).
+  unfold nth4 at 1. rewrite nth_mk by exact H1. rewrite (nth_mk 1) by lia.
+  rewrite nth_mk by exact H2. rewrite (nth_mk 1) by lia.
+  unfold norm_cont. change (length (comps_of sa)) with 1%nat. change (length (comps_of sb)) with 1%nat.
+  rewrite nth_mk by exact H1. rewrite (nth_mk 1) by lia.
+  rewrite nth_mk by exact H2. rewrite (nth_mk 1) by lia. reflexivity.
+Qed.
+
+(* The property's last clause on the model: every entry of the normalised s-s block of a removed pair is
+   smaller in magnitude than tol times the sums of the normalised absolute contraction coefficients. *)
+Theorem removed_s_bound_normalised xa ya za ea ca sa_ la_ xb yb zb eb cb sb_ lb_ m1 m2 tol :
+  let sa := ss_shell xa ya za ea ca sa_ la_ in let sb := ss_shell xb yb zb eb cb sb_ lb_ in
+  pos_exps sa -> pos_exps sb -> length ca = length ea -> length cb = length eb ->
+  (m1 < nseg sa)%nat -> (m2 < nseg sb)%nat ->
+  0 < tol <= 1 ->
+  is_screened RK (Some tol) sa sb = true ->
+  let Sa := ncont sa m1 * abs_sum (col m1 ea ca) in let Sb := ncont sb m2 * abs_sum (col m2 eb cb) in
+  let e := nth4 RK m1 0 m2 0 (normalise RK Rmult (norm_cont RK sa) (norm_cont RK sb) (overlap_block RK sa sb)) in
+  Rabs e <= tol * Sa * Sb /\ (0 < Sa -> 0 < Sb -> Rabs e < tol * Sa * Sb).
+Proof.
+  intros sa sb Pa Pb La Lb H1 H2 Ht H. cbv zeta.
+  unfold sa, sb. rewrite ss_normalised_entry by assumption. fold sa sb.
+  apply (removed_s_bound_block xa ya za ea ca sa_ la_ xb yb zb eb cb sb_ lb_ m1 m2
+           (ncont sa m1) (ncont sb m2) tol); try assumption; apply ncont_nonneg.
+Qed.
+
+(* ---- ... and on the entry of the processed block that the assembly places in the matrix, for Cartesian
+        s shells (for spherical s shells the 1x1 transform is applied on top; not lifted here) ---- *)
+Lemma concat_mk_single {A} n (f : nat -> A) : concat (mk n (fun i => [f i])) = mk n f.
+Proof. unfold mk. induction (seq 0 n) as [|i l IH]; cbn; [reflexivity|]. now rewrite IH. Qed.
+Lemma flat_map_single {A B} (g : A -> B) l : flat_map (fun x => [g x]) l = map g l.
+Proof. induction l as [|x l IH]; cbn; [reflexivity|]. now rewrite IH. Qed.
+
+Lemma ss_pblock_entry xa ya za ea ca la_ xb yb zb eb cb lb_ m1 m2 :
+  let sa := ss_shell xa ya za ea ca false la_ in let sb := ss_shell xb yb zb eb cb false lb_ in
+  (m1 < nseg sa)%nat -> (m2 < nseg sb)%nat ->
+  nth m2 (nth m1 (pblock RK 0 Rplus Rmult (overlap_block RK) (prep RK sa) (prep RK sb)) []) 0
+  = nth4 RK m1 0 m2 0 (normalise RK Rmult (norm_cont RK sa) (norm_cont RK sb) (overlap_block RK sa sb)).
+Proof.
+  intros sa sb H1 H2. unfold pblock, prep. cbn [p_shell p_norm p_T].
+  change (s_sph sa) with false. change (s_sph sb) with false. unfold shell_block.
+  set (N := normalise RK Rmult (norm_cont RK sa) (norm_cont RK sb) (overlap_block RK sa sb)).
+  assert (EN : N = mk (nseg sa) (fun m => mk 1 (fun c => mk (nseg sb) (fun m' => mk 1 (fun c' =>
+                 nth4 RK m c m' c' N))))).
+  { unfold N at 1.
+    set (B := fun m c m' c' => nth4 RK m c m' c' (overlap_block RK sa sb)).
+    assert (EB : overlap_block RK sa sb
+       = mk (nseg sa) (fun m => mk 1 (fun c => mk (nseg sb) (fun m' => mk 1 (fun c' => B m c m' c'))))).
+    { unfold B, nth4, overlap_block, mm_block. cbn [map hd].
+      change (comps_of sa) with [(0,0,0)%nat]. change (comps_of sb) with [(0,0,0)%nat].
+      change (norms RK sa) with [map (norm_prim RK 0 (0,0,0)%nat) ea].
+      change (norms RK sb) with [map (norm_prim RK 0 (0,0,0)%nat) eb].
+      cbn [combine length].
+      apply mk_ext; intros m Hm. apply mk_ext; intros c Hc.
+      apply mk_ext; intros m' Hm'. apply mk_ext; intros c' Hc'.
+      rewrite nth_mk by exact Hm. rewrite nth_mk by exact Hc.
+      rewrite nth_mk by exact Hm'. rewrite nth_mk by exact Hc'. reflexivity. }
+    assert (EN0 : N = normalise RK Rmult (norm_cont RK sa) (norm_cont RK sb)
+       (mk (nseg sa) (fun m => mk 1 (fun c => mk (nseg sb) (fun m' => mk 1 (fun c' => B m c m' c')))))).
+    { unfold N. now rewrite <- EB. }
+    rewrite EB. unfold norm_cont in EN0 |- *.
+    change (length (comps_of sa)) with 1%nat in EN0 |- *. change (length (comps_of sb)) with 1%nat in EN0 |- *.
+    rewrite (normalise_mk (nseg sa) 1 (nseg sb) 1) in EN0 |- *.
+    apply mk_ext; intros m Hm. apply mk_ext; intros c Hc.
+    apply mk_ext; intros m' Hm'. apply mk_ext; intros c' Hc'.
+    rewrite EN0. unfold nth4. rewrite nth_mk by exact Hm. rewrite nth_mk by exact Hc.
+    rewrite nth_mk by exact Hm'. now rewrite nth_mk by exact Hc'. }
+  rewrite EN at 1. unfold flatten_block.
+  change (fun b1 : list (list (list R)) => map (fun b2 => concat b2) b1)
+    with (fun b1 : list (list (list R)) => map (@concat R) b1).
+  unfold mk at 1. rewrite flat_map_concat_map, map_map.
+  change (fun x : nat => map (@concat R) (mk 1 (fun c => mk (nseg sb) (fun m' => mk 1 (fun c' => nth4 RK x c m' c' N)))))
+    with (fun x : nat => [concat (mk (nseg sb) (fun m' => [nth4 RK x 0 m' 0 N]))]).
+  rewrite <- flat_map_concat_map, flat_map_single.
+  fold (mk (nseg sa) (fun x => concat (mk (nseg sb) (fun m' => [nth4 RK x 0 m' 0 N])))).
+  rewrite nth_mk by exact H1. rewrite concat_mk_single. now rewrite nth_mk by exact H2.
+Qed.
+
+Theorem removed_s_bound_pblock xa ya za ea ca la_ xb yb zb eb cb lb_ m1 m2 tol :
+  let sa := ss_shell xa ya za ea ca false la_ in let sb := ss_shell xb yb zb eb cb false lb_ in
+  pos_exps sa -> pos_exps sb -> length ca = length ea -> length cb = length eb ->
+  (m1 < nseg sa)%nat -> (m2 < nseg sb)%nat ->
+  0 < tol <= 1 ->
+  is_screened RK (Some tol) sa sb = true ->
+  let Sa := ncont sa m1 * abs_sum (col m1 ea ca) in let Sb := ncont sb m2 * abs_sum (col m2 eb cb) in
+  let e := nth m2 (nth m1 (pblock RK 0 Rplus Rmult (overlap_block RK) (prep RK sa) (prep RK sb)) []) 0 in
+  Rabs e <= tol * Sa * Sb /\ (0 < Sa -> 0 < Sb -> Rabs e < tol * Sa * Sb).
+Proof.
+  intros sa sb Pa Pb La Lb H1 H2 Ht H. cbv zeta.
+  unfold sa, sb. rewrite ss_pblock_entry by assumption.
+  apply (removed_s_bound_normalised xa ya za ea ca false la_ xb yb zb eb cb false lb_ m1 m2 tol); assumption.
+Qed.
+
 (* ---- the hypotheses above are satisfiable (concrete instances) ---- *)
 Definition ex_shell (x : R) : shell R := mkShell R 0 x 0 0 [1] [[1]] false [] [].
 
@@ -765,4 +1026,15 @@ Proof.
   - split; [now left|]. intros x [<-|[]]; cbn; lra.
   - split; [now left|]. intros x [<-|[]]; cbn; lra.
   - rewrite ln_Rinv by lra. replace (- (1 + 1) / (1 * 1) * - ln 2) with (2 * ln 2) by field. lra.
+Qed.
+
+Example removed_s_bound_pblock_ex :
+  let sa := ss_shell 0 0 0 [1] [[1]] false [] in let sb := ss_shell 3 0 0 [1] [[1]] false [] in
+  Rabs (nth 0 (nth 0 (pblock RK 0 Rplus Rmult (overlap_block RK) (prep RK sa) (prep RK sb)) []) 0)
+  <= / 2 * (ncont sa 0 * abs_sum (col 0 [1] [[1]])) * (ncont sb 0 * abs_sum (col 0 [1] [[1]])).
+Proof.
+  cbv zeta.
+  apply (removed_s_bound_pblock 0 0 0 [1] [[1]] [] 3 0 0 [1] [[1]] [] 0 0 (/ 2));
+    try apply ex_pos; try reflexivity; try (cbn; lia); try lra.
+  exact ex_screened.
 Qed.
